@@ -52,19 +52,31 @@ theorem getLoop_ok_prefix (d : PC) (deps : List Nat) (h : (getLoop d deps).2 = t
       simp [hx'] at h
 
 
+/-- every property node has been reset in this attempt -/
+def AllReset (d : PC) (t : List PEv) : Prop := ∀ i, i < d.props.length → PEv.reset i ∈ t
+
+theorem AllReset.append {d : PC} {t : List PEv} (h : AllReset d t) (u : List PEv) : AllReset d (t ++ u) :=
+  fun i hi => List.mem_append_left _ (h i hi)
+
+theorem injectsNow_reset (d : PC) (k : Nat) (t : List PEv) (hk : k < d.props.length) (hr : AllReset d t) :
+    injectsNow d k t = depsOf d k := by
+  unfold injectsNow
+  have : t.contains (PEv.reset k) = true := by simpa using hr k hk
+  rw [if_pos this]
+
 /-- the outer loop: property nodes in order; a failing node returns -/
 theorem loopM_nodes (d : PC) (f : Nat → Val → Env → List PEv → Option (Env × List PEv × Ctl)) (E2 : Val → Env)
-    (hf : ∀ i k t, k < d.props.length → ∃ e, f i (.ref k 20) (E2 .nil) t =
+    (hf : ∀ i k t, k < d.props.length → AllReset d t → ∃ e, f i (.ref k 20) (E2 .nil) t =
         some (E2 e, t ++ (nodeStep d k (depsOf d k)).1, if (nodeStep d k (depsOf d k)).2 then Ctl.norm else Ctl.ret errP) ∧
         ((nodeStep d k (depsOf d k)).2 = true → e = .nil)) :
-    ∀ (suffix : List (List Nat)) (k i : Nat) (t : List PEv), d.props.drop k = suffix →
+    ∀ (suffix : List (List Nat)) (k i : Nat) (t : List PEv), d.props.drop k = suffix → AllReset d t →
       ∃ e, loopM f i ((List.range' k suffix.length).map (fun j => Val.ref j 20)) (E2 .nil) t =
         some (E2 e, t ++ (nodesLoop d k suffix).1, if (nodesLoop d k suffix).2 then Ctl.norm else Ctl.ret errP) := by
   intro suffix
   induction suffix with
-  | nil => intro k i t _; exact ⟨.nil, by simp [loopM, nodesLoop]⟩
+  | nil => intro k i t _ _; exact ⟨.nil, by simp [loopM, nodesLoop]⟩
   | cons deps rest ih =>
-    intro k i t hd
+    intro k i t hd hr
     have hk : k < d.props.length := by
       rcases Nat.lt_or_ge k d.props.length with h | h
       · exact h
@@ -78,7 +90,7 @@ theorem loopM_nodes (d : PC) (f : Nat → Val → Env → List PEv → Option (E
     have hrest : d.props.drop (k + 1) = rest := by
       have := congrArg List.tail hd
       simpa [List.tail_drop] using this
-    obtain ⟨e, he, hnil⟩ := hf i k t hk
+    obtain ⟨e, he, hnil⟩ := hf i k t hk hr
     rw [hdeps] at he hnil
     simp only [List.length_cons, List.range'_succ, List.map_cons, loopM, he, nodesLoop]
     cases hok : (nodeStep d k deps).2 with
@@ -86,12 +98,14 @@ theorem loopM_nodes (d : PC) (f : Nat → Val → Env → List PEv → Option (E
     | true =>
       have := hnil hok
       subst this
-      obtain ⟨e2, he2⟩ := ih (k + 1) (i + 1) (t ++ (nodeStep d k deps).1) hrest
+      obtain ⟨e2, he2⟩ := ih (k + 1) (i + 1) (t ++ (nodeStep d k deps).1) hrest (hr.append _)
       exact ⟨e2, by simp [he2, List.append_assoc]⟩
 
 
-def pcStmt (i : Nat) : Stmt := Progs.fac_populateComponent.body.getD i .brk
-theorem pc_body : Progs.fac_populateComponent.body = [pcStmt 0, pcStmt 1, pcStmt 2, pcStmt 3] := rfl
+/-- statement 0 of the body is the reset loop; `pcStmt i` are the statements after it -/
+def pcReset : Stmt := Progs.fac_populateComponent.body.getD 0 .brk
+def pcStmt (i : Nat) : Stmt := Progs.fac_populateComponent.body.getD (i + 1) .brk
+theorem pc_body : Progs.fac_populateComponent.body = [pcReset, pcStmt 0, pcStmt 1, pcStmt 2, pcStmt 3] := rfl
 theorem pc_params : Progs.fac_populateComponent.params = ["name", "meta"] := rfl
 
 /-- the parts of statement 2: `if properties := …; len(properties) > 0 { for _, node := range … { NODE } }` -/
@@ -116,9 +130,10 @@ def pcE2 (d : PC) (e : Val) : Env :=
 def pcEN (d : PC) (k : Nat) (e : Val) : Env := ("node", .ref k 20) :: pcE2 d e
 def pcED (d : PC) (k : Nat) (e : Val) : Env := ("dependencies", .list ((depsOf d k).map encDep)) :: pcEN d k e
 
-theorem node_init (d : PC) (k : Nat) (t : List PEv) :
+theorem node_init (d : PC) (k : Nat) (t : List PEv) (hk : k < d.props.length) (hr : AllReset d t) :
     evalB (pcPrims d) (pcEN d k .nil) t nodeParts.1 = some (pcED d k .nil, t, .norm) := by
-  go_simp [nodeParts, pcParts, pcStmt, Progs.fac_populateComponent, pcPrims, pcFn, pcEN, pcED, pcE2, encDep]
+  have hi := injectsNow_reset d k t hk hr
+  go_simp [nodeParts, pcParts, pcStmt, Progs.fac_populateComponent, pcPrims, pcFn, pcEN, pcED, pcE2, encDep, hi]
 
 theorem node_cond (d : PC) (k : Nat) (t : List PEv) :
     evalE (pcPrims d) (pcED d k .nil) t nodeParts.2.1 = some (.bool (!(depsOf d k).isEmpty), t) := by
@@ -129,14 +144,15 @@ theorem node_n0 (d : PC) (k : Nat) (t : List PEv) :
     evalS (pcPrims d) (pcED d k .nil) t (pcN 0) = some (("injects", encComps []) :: pcED d k .nil, t, .norm) := by
   go_simp [pcN, nodeParts, pcParts, pcStmt, Progs.fac_populateComponent, encComps]
 
-theorem node_n1 (d : PC) (k : Nat) (t : List PEv) :
+theorem node_n1 (d : PC) (k : Nat) (t : List PEv) (hk : k < d.props.length) (hr : AllReset d t) :
     evalS (pcPrims d) (("injects", encComps []) :: pcED d k .nil) t (pcN 1) =
       some (("injects", encComps (okPrefix d (depsOf d k))) :: pcED d k .nil, t ++ (getLoop d (depsOf d k)).1,
             if (getLoop d (depsOf d k)).2 then .norm else .ret errP) := by
   simp only [pcN, nodeParts, pcParts, pcStmt, Progs.fac_populateComponent, List.getD_cons_succ, List.getD_cons_zero, evalS]
   have hcoll : evalE (pcPrims d) (("injects", encComps []) :: pcED d k .nil) t (.sel (.var "node") "Injects") =
       some (.list ((depsOf d k).map encDep), t) := by
-    go_simp [pcPrims, pcFn, pcED, pcEN, encDep]
+    have hi := injectsNow_reset d k t hk hr
+    go_simp [pcPrims, pcFn, pcED, pcEN, encDep, hi]
   rw [hcoll]
   simp only []
   rw [loopM_get d _ (pcED d k .nil) (by
@@ -168,7 +184,7 @@ theorem node_n3 (d : PC) (k : Nat) (l : List Nat) (ok : Bool) (t : List PEv) :
 def nodeErr (d : PC) (k : Nat) : Val :=
   if !(depsOf d k).isEmpty && (getLoop d (depsOf d k)).2 && !d.injectOk k then errP else .nil
 
-theorem node_sem (d : PC) (k : Nat) (t : List PEv) :
+theorem node_sem (d : PC) (k : Nat) (t : List PEv) (hk : k < d.props.length) (hr : AllReset d t) :
     evalS (pcPrims d) (pcEN d k .nil) t pcParts.2.2.2 =
       some (pcEN d k (nodeErr d k), t ++ (nodeStep d k (depsOf d k)).1,
             if (nodeStep d k (depsOf d k)).2 then .norm else .ret errP) := by
@@ -176,12 +192,12 @@ theorem node_sem (d : PC) (k : Nat) (t : List PEv) :
   unfold nodeStep nodeErr
   cases hde : (depsOf d k).isEmpty with
   | true =>
-    rw [evalS_ifs_false _ _ _ _ _ _ _ _ _ _ (node_init d k t) (by rw [node_cond, hde]; rfl)]
+    rw [evalS_ifs_false _ _ _ _ _ _ _ _ _ _ (node_init d k t hk hr) (by rw [node_cond, hde]; rfl)]
     simp [evalB_nil, Env.leave, pcED]
   | false =>
-    rw [evalS_ifs_true _ _ _ _ _ _ _ _ _ _ (node_init d k t) (by rw [node_cond, hde]; rfl)]
+    rw [evalS_ifs_true _ _ _ _ _ _ _ _ _ _ (node_init d k t hk hr) (by rw [node_cond, hde]; rfl)]
     rw [evalB_cons, node_n0]; simp only []
-    rw [evalB_cons, node_n1]
+    rw [evalB_cons, node_n1 d k t hk hr]
     cases hg : (getLoop d (depsOf d k)).2 with
     | false => simp [Env.leave, pcED]
     | true =>
@@ -193,9 +209,9 @@ theorem node_sem (d : PC) (k : Nat) (t : List PEv) :
 
 def pcE1 (d : PC) (e : Val) : Env := [("err", e), ("name", .int (d.n : Int)), ("meta", .ref d.n 0)]
 
-theorem pc_s0 (d : PC) :
-    evalS (pcPrims d) [("name", .int (d.n : Int)), ("meta", .ref d.n 0)] [] (pcStmt 0) =
-      some (pcE1 d (if d.resolveOk then .nil else errP), [.resolve], .norm) := by
+theorem pc_s0 (d : PC) (t : List PEv) :
+    evalS (pcPrims d) [("name", .int (d.n : Int)), ("meta", .ref d.n 0)] t (pcStmt 0) =
+      some (pcE1 d (if d.resolveOk then .nil else errP), t ++ [.resolve], .norm) := by
   go_simp [pcStmt, Progs.fac_populateComponent, pcPrims, pcFn, pcE1]
 
 theorem pc_s1 (d : PC) (ok : Bool) (t : List PEv) :
@@ -216,16 +232,16 @@ theorem pc2_coll (d : PC) (t : List PEv) :
   go_simp [pcParts, pcStmt, Progs.fac_populateComponent, pcPrims, pcFn, pcE2, propsVal]
 
 /-- the range over the property nodes -/
-theorem pc2_range (d : PC) (t : List PEv) :
+theorem pc2_range (d : PC) (t : List PEv) (hr : AllReset d t) :
     ∃ e, evalS (pcPrims d) (pcE2 d .nil) t (.range "_" "node" pcParts.2.2.1 [pcParts.2.2.2]) =
       some (pcE2 d e, t ++ (nodesLoop d 0 d.props).1, if (nodesLoop d 0 d.props).2 then .norm else .ret errP) := by
   simp only [evalS, pc2_coll, propsVal]
   have := loopM_nodes d
     (fun i x e w' => (evalB (pcPrims d) (Env.def (Env.def e "_" (.int i)) "node" x) w' [pcParts.2.2.2]).map
       (fun (e', w'', c) => (Env.leave e' e.length, w'', c))) (pcE2 d) (by
-      intro i k t hk
+      intro i k t hk hr
       refine ⟨nodeErr d k, ?_, ?_⟩
-      · have hn := node_sem d k t
+      · have hn := node_sem d k t hk hr
         have henv : Env.def (Env.def (pcE2 d .nil) "_" (.int i)) "node" (.ref k 20) = pcEN d k .nil := by
           simp [Env.def, pcEN]
         simp only [henv, evalB_cons, hn]
@@ -241,26 +257,63 @@ theorem pc2_range (d : PC) (t : List PEv) :
           | false => simp
           | true =>
             simp only [hg, Bool.not_true, Bool.false_eq_true, if_false] at hok
-            simp [hok]) d.props 0 0 t (by simp)
+            simp [hok]) d.props 0 0 t (by simp) hr
   exact this
 
-/-- populateComponent, regenerated: ResolveAfterInstantiation, then for each property in order every candidate through
-    doGetComponent (stop at the first error), then Inject with what was obtained — `populateModel` -/
+theorem pcReset_shape : pcReset = .range "_" "node" (.mcall (.var "meta") "GetComponentProperties" [])
+    [.store (.var "node") "Injects" .nil] := rfl
+
+def resetStep (k : Nat) (_ : Unit) (t : List PEv) : Unit × List PEv × Option Val := ((), t ++ [.reset k], none)
+
+theorem resetStep_loop (ks : List Nat) (t : List PEv) :
+    stepLoop resetStep ks () t = ((), t ++ ks.map PEv.reset, none) := by
+  induction ks generalizing t with
+  | nil => simp [stepLoop]
+  | cons k ks ih => simp [stepLoop, resetStep, ih, List.append_assoc]
+
+/-- the reset loop: every property node, in order -/
+theorem pc_reset (d : PC) (t : List PEv) :
+    evalS (pcPrims d) [("name", .int (d.n : Int)), ("meta", .ref d.n 0)] t pcReset =
+      some ([("name", .int (d.n : Int)), ("meta", .ref d.n 0)], t ++ resets d, .norm) := by
+  rw [pcReset_shape]
+  simp only [evalS]
+  have hcoll : evalE (pcPrims d) [("name", .int (d.n : Int)), ("meta", .ref d.n 0)] t (.mcall (.var "meta") "GetComponentProperties" []) =
+      some (.list ((List.range' 0 d.props.length).map (fun j => Val.ref j 20)), t) := by go_simp [pcPrims, pcFn]
+  rw [hcoll]; simp only []
+  have := loopM_state (fun j => Val.ref j 20)
+    (fun i x e w' => (evalB (pcPrims d) (Env.def (Env.def e "_" (.int i)) "node" x) w' [.store (.var "node") "Injects" .nil]).map
+      (fun (e', w'', c) => (Env.leave e' e.length, w'', c)))
+    (fun (_ : Unit) => [("name", .int (d.n : Int)), ("meta", .ref d.n 0)]) resetStep
+    (fun i k _ w' => by go_simp [pcPrims, pcFn, resetStep, ctlOf]) (List.range' 0 d.props.length) 0 () t
+  rw [this, resetStep_loop]
+  simp [ctlOf, resets]
+
+theorem allReset_resets (d : PC) (u : List PEv) : AllReset d (resets d ++ u) := by
+  intro i hi
+  apply List.mem_append_left
+  simp only [resets, List.mem_map, List.mem_range'_1]
+  exact ⟨i, ⟨by omega, by omega⟩, rfl⟩
+
+/-- populateComponent, regenerated: every property node's `Injects` is reset, ResolveAfterInstantiation, then for each
+    property in order every candidate through doGetComponent (stop at the first error), then Inject with what was obtained —
+    `populateModel`, whatever an earlier attempt left in the nodes (`d.stale`) -/
 theorem populateComponent_sem (d : PC) :
     ∃ out, run (pcPrims d) Progs.fac_populateComponent [.int d.n, .ref d.n 0] [] = some (out, (populateModel d).1) ∧
       out = (if (populateModel d).2 then .nil else errP) := by
   simp only [run, pc_params, pc_body, List.length_cons, List.length_nil, if_true, List.zip_cons_cons, List.zip_nil_right]
+  rw [evalB_cons, pc_reset]; simp only [List.nil_append]
   rw [evalB_cons, pc_s0]; simp only []
   rw [evalB_cons, pc_s1]
   unfold populateModel
+  have hrs : AllReset d (resets d ++ [PEv.resolve]) := allReset_resets d _
   cases hr : d.resolveOk with
   | false => exact ⟨errP, by simp, by simp⟩
   | true =>
     simp only [if_true, Bool.not_true, Bool.false_eq_true, if_false]
     rw [evalB_cons, pc2_shape]
     by_cases hlen : d.props.length > 0
-    · rw [evalS_ifs_true (w1 := [.resolve]) (w2 := [.resolve]) _ _ _ _ _ _ _ _ (pc2_init d _) (by rw [pc2_cond]; simp [hlen])]
-      obtain ⟨e, he⟩ := pc2_range d [.resolve]
+    · rw [evalS_ifs_true (w1 := resets d ++ [PEv.resolve]) (w2 := resets d ++ [PEv.resolve]) _ _ _ _ _ _ _ _ (pc2_init d _) (by rw [pc2_cond]; simp [hlen])]
+      obtain ⟨e, he⟩ := pc2_range d (resets d ++ [PEv.resolve]) hrs
       rw [evalB_cons, he]
       cases hok : (nodesLoop d 0 d.props).2 with
       | false => exact ⟨errP, by simp, by simp⟩
@@ -272,10 +325,25 @@ theorem populateComponent_sem (d : PC) :
         cases hp : d.props with
         | nil => rfl
         | cons a b => rw [hp] at hlen; simp at hlen
-      rw [evalS_ifs_false (w1 := [.resolve]) (w2 := [.resolve]) _ _ _ _ _ _ _ _ (pc2_init d _) (by rw [pc2_cond]; simp [h0])]
+      rw [evalS_ifs_false (w1 := resets d ++ [PEv.resolve]) (w2 := resets d ++ [PEv.resolve]) _ _ _ _ _ _ _ _ (pc2_init d _) (by rw [pc2_cond]; simp [h0])]
       refine ⟨.nil, ?_, by simp [h0, nodesLoop]⟩
       simp only [evalB_nil, Option.map, h0, nodesLoop]
       go_simp [pcStmt, Progs.fac_populateComponent, pcE2, pcE1]
 
+
+/-- `populateModel` does not look at the leftovers -/
+theorem getLoop_stale (d : PC) (l : Nat → List Nat) (deps : List Nat) : getLoop { d with stale := l } deps = getLoop d deps := by
+  induction deps with
+  | nil => rfl
+  | cons x rest ih => simp only [getLoop, ih]
+
+theorem nodesLoop_stale (d : PC) (l : Nat → List Nat) (ps : List (List Nat)) (k : Nat) :
+    nodesLoop { d with stale := l } k ps = nodesLoop d k ps := by
+  induction ps generalizing k with
+  | nil => rfl
+  | cons deps rest ih => simp only [nodesLoop, nodeStep, getLoop_stale, ih]
+
+theorem populateModel_stale (d : PC) (l : Nat → List Nat) : populateModel { d with stale := l } = populateModel d := by
+  simp only [populateModel, nodesLoop_stale, resets]
 
 end Ioc.Sem
